@@ -664,11 +664,17 @@ theorem router_step_output (h pn sn : String) (kp ks i n : Nat) (w : RWorld) :
   refine ⟨by simp, ?_, ?_, ⟨ms', hcalls⟩, ?_⟩ <;>
     cases w.pw.script.headD false <;> simp [subCounts]
 
-/-- **metrics_handler_once**: over any sequence of handler outcomes (success with or without output, error, panic,
-    output that cannot be published) and any failure script of the publisher, the middleware observes every
-    invocation exactly once, in order, labelled `success=true` exactly for the invocations that returned nil
-    without panicking – a publish failure afterwards does not change the handler's label. -/
-theorem metrics_handler_once (h pn sn : String) (kp ks : Nat) (outs : List Outcome) (i : Nat) (w : RWorld) :
+/-- **metrics_handler_once** (guarded, finding `handler-middleware-applied-twice` open): with the middleware
+    registered ONCE (`km = 1`), over any sequence of handler outcomes (success with or without output, error, panic,
+    output that cannot be published) and any failure script of the publisher, every invocation is observed exactly
+    once, in order, labelled `success=true` exactly for the invocations that returned nil without panicking – a publish
+    failure afterwards does not change the handler's label.
+
+    Full statement (does NOT hold, see `handler_applied_twice_witness`): the same for every `km ≥ 1`, i.e.
+    `(routerRun h pn sn kp ks km i outs w).hobs = w.hobs ++ outs.map (handlerObs h)` also when the middleware (or
+    `AddPrometheusRouterMetrics`) is applied twice.  Missing: an "already observed" mark like the ones the publisher and
+    subscriber decorators keep in the message context. -/
+theorem metrics_handler_once_partial (h pn sn : String) (kp ks : Nat) (outs : List Outcome) (i : Nat) (w : RWorld) :
     (routerRun h pn sn kp ks 1 i outs w).hobs = w.hobs ++ outs.map (handlerObs h) := by
   induction outs generalizing i w with
   | nil => simp [routerRun]
@@ -682,10 +688,9 @@ theorem metrics_handler_once (h pn sn : String) (kp ks : Nat) (outs : List Outco
       | panic => simp [routerStep]
     rw [this]; simp
 
-/-- the middleware has no idempotency mark: registered `km` times, EACH application observes every invocation once
-    (so the histogram shows `km` samples per invocation, all with the same, correct label).  The property's quantifier
-    ranges over decorator stacks with the middleware applied once (`metrics_handler_once`); this theorem records what
-    the model – and the code, see the `rt` cases with `km = 2` – does beyond that. -/
+/-- what the code does for any number of registrations: the middleware has no idempotency mark, EACH of the `km`
+    applications observes every invocation once (so the histogram shows `km` samples per invocation, all with the
+    same, correct label) -/
 theorem metrics_handler_each_application (h pn sn : String) (kp ks km : Nat) (outs : List Outcome) (i : Nat) (w : RWorld) :
     (routerRun h pn sn kp ks km i outs w).hobs = w.hobs ++ outs.flatMap (fun o => List.replicate km (handlerObs h o)) := by
   induction outs generalizing i w with
@@ -703,6 +708,16 @@ theorem metrics_handler_each_application (h pn sn : String) (kp ks km : Nat) (ou
 example : (routerRun "h" "P" "S" 1 1 2 0 [.ok 0, .panic] {}).hobs =
     [⟨"h", true⟩, ⟨"h", true⟩, ⟨"h", false⟩, ⟨"h", false⟩] := by
   rw [metrics_handler_each_application]; rfl
+
+/-- **finding `handler-middleware-applied-twice`**: with the middleware registered twice ONE invocation leaves TWO
+    observations – the unguarded `metrics_handler_once` fails for `km = 2` -/
+theorem handler_applied_twice_witness :
+    (routerRun "h" "P" "S" 1 1 2 0 [.ok 0] {}).hobs = [⟨"h", true⟩, ⟨"h", true⟩] ∧
+    (routerRun "h" "P" "S" 1 1 2 0 [.ok 0] {}).hobs ≠ [Outcome.ok 0].map (handlerObs "h") ∧
+    (routerRun "h" "P" "S" 1 1 2 0 [.ok 0] {}).settles.length = 1 := by
+  rw [metrics_handler_each_application]
+  refine ⟨rfl, by decide, ?_⟩
+  simp [routerRun, routerStep]
 
 /-- the three metrics over a whole run, decorators applied once or several times: as many subscriber counts as
     messages, `acked` ones as many as acked messages; as many publish observations as calls of the wrapped
@@ -746,6 +761,6 @@ theorem router_metrics_exact (h pn sn : String) (kp ks : Nat) (outs : List Outco
 
 example : (routerRun "h" "P" "S" 2 2 1 0 [.ok 1, .panic, .ok 2, .err] { pw := { script := [false, true] } }).hobs =
     [⟨"h", true⟩, ⟨"h", false⟩, ⟨"h", true⟩, ⟨"h", false⟩] := by
-  rw [metrics_handler_once]; rfl
+  rw [metrics_handler_once_partial]; rfl
 
 end Wm.Decor
